@@ -128,6 +128,17 @@ def reach_rules(chk, F, A, an, table, tag):
     ck = [f for f in F.fns.values() if f.j.get("impl") and f.j["impl"]["self_ty"].get("path", "").endswith("LmotsParameter")
           and [t["s"] for t in f.j.get("inputs", [])][1:] == ["&[u8]"] and f.j.get("output", {}).get("s") == "u16"]
     apps = [f for f in F.fns.values() if ck and any(ck[0].path in F.call_targets(f, t) for _, t in f.calls())]
+    ck_local = None
+    if not ck:
+        # checksum computed inside the appender: the local holding `sum << ls` plays the role of the checksum routine's result
+        for f in F.fns.values():
+            if f.j.get("impl") and f.j["impl"]["self_ty"].get("path", "").endswith("LmotsParameter") and any(coef.path in F.call_targets(f, t) for _, t in f.calls()):
+                fx = expr.Expr(F, f)
+                for b_, i_, s_ in f.iter_stmts():
+                    if s_["k"] == "assign" and s_["rv"]["k"] == "binop" and s_["rv"]["op"] == "Shl" and not f.blocks[b_]["cleanup"] and not s_["place"]["proj"]:
+                        e_ = fx.of_rvalue(s_["rv"], 0)
+                        if e_[0] == "bin" and expr.has_field(e_[3], "checksum_left_shift"):
+                            apps, ck_local = [f], s_["place"]["local"]
     seen_rows = set()
     for (name, n, t), (w, p, ls) in sorted(table.items()):
         if (n, w, p) in seen_rows:
@@ -162,8 +173,13 @@ def reach_rules(chk, F, A, an, table, tag):
         chk.ob("T6.appender-found", "appender" + tag, False, "checksum-appending routine not unique: %s" % [f.path for f in apps])
         return
     ap = apps[0]
-    ckp = ck[0].path
+    ckp = ck[0].path if ck else None
     sl = core.Slice(ap)
+
+    def from_checksum(d):
+        if ckp is not None:
+            return any(F.call_targets(ap, ct) == [ckp] for cb, ct in d["calls"])
+        return ck_local in d["locals"]
     for n in sorted({k[1] for k in table}):
         with bind_assoc(an, {tr + "::OUTPUT_SIZE": (n, n)}):
             an.obs = {}
@@ -178,7 +194,7 @@ def reach_rules(chk, F, A, an, table, tag):
                 last = cp.rsplit("::", 1)[-1]
                 if last in ("extend_from_slice", "push") and "ArrayVec" in cp:
                     d = core.operand_deps(ap, t["args"][1])
-                    if any(F.call_targets(ap, ct) == [ckp] for cb, ct in d["calls"]):
+                    if from_checksum(d):
                         for cur, add in an.obs.get(("grow", ap.path, b), []):
                             if cur is None or add is None or cur[0] != cur[1] or add[0] != add[1]:
                                 unknown.append("growth at unknown position %s+%s" % (cur, add))
@@ -186,7 +202,7 @@ def reach_rules(chk, F, A, an, table, tag):
                                 writes.append((cur[0], cur[0] + add[0]))
                 elif last in ("copy_from_slice", "clone_from_slice"):
                     d = core.operand_deps(ap, t["args"][1])
-                    if any(F.call_targets(ap, ct) == [ckp] for cb, ct in d["calls"]):
+                    if from_checksum(d):
                         # destination: result of an index_mut with a range
                         o = flow.origin(ap, t["args"][0])
                         got = False
@@ -221,6 +237,23 @@ def role_rules(chk, F, A, tag):
     ck = [f for f in F.fns.values() if f.j.get("impl") and f.j["impl"]["self_ty"].get("path", "").endswith("LmotsParameter")
           and [t["s"] for t in f.j.get("inputs", [])][1:] == ["&[u8]"] and f.j.get("output", {}).get("s") == "u16"
           and any(coef.path in [tp for tp in F.call_targets(f, t)] for _, t in f.calls())]
+    inlined = None
+    if not ck:
+        # the checksum computed inside the appending routine itself (helper inlined into its only caller): a method of the
+        # parameter type that calls the digit function and shifts a sum by the parameter's left-shift value
+        for f in F.fns.values():
+            if not (f.j.get("impl") and f.j["impl"]["self_ty"].get("path", "").endswith("LmotsParameter")):
+                continue
+            if not any(coef.path in F.call_targets(f, t) for _, t in f.calls()):
+                continue
+            fx = expr.Expr(F, f)
+            for b_, i_, s_ in f.iter_stmts():
+                if s_["k"] == "assign" and s_["rv"]["k"] == "binop" and s_["rv"]["op"] == "Shl" and not f.blocks[b_]["cleanup"]:
+                    e_ = fx.of_rvalue(s_["rv"], 0)
+                    if e_[0] == "bin" and expr.has_field(e_[3], "checksum_left_shift"):
+                        inlined = (f, e_)
+        if inlined is not None:
+            ck = [inlined[0]]
     if len(ck) != 1:
         # is there a routine of that signature that computes its digits some other way?
         sig = [f for f in F.fns.values() if f.j.get("impl") and f.j["impl"]["self_ty"].get("path", "").endswith("LmotsParameter")
@@ -233,7 +266,7 @@ def role_rules(chk, F, A, tag):
         raise AnchorLost("checksum routine (fn(&LmotsParameter, &[u8]) -> u16 calling the digit function) not unique: %s" % [f.path for f in ck])
     ck = ck[0]
     ex = expr.Expr(F, ck)
-    ret = ex.of_local(0, 0)
+    ret = ex.of_local(0, 0) if inlined is None else inlined[1]
     allx = dep_exprs(ex, ret)
     # shifted by ls
     shl = [x for e in allx for x in expr.walk(e) if x[0] == "bin" and x[1] in ("Shl", "Mul") and expr.has_field(x[3], "checksum_left_shift")]
@@ -262,7 +295,7 @@ def role_rules(chk, F, A, tag):
            "the checksum loop is not over 0..(8n/w) (bound must depend on the hash size and w, not on p)", where=ck.loc())
 
     # append_checksum: the 2 appended bytes are the high and low byte of the checksum routine's result
-    app = [f for f in F.fns.values() if any(ck.path in F.call_targets(f, t) for _, t in f.calls())]
+    app = [f for f in F.fns.values() if any(ck.path in F.call_targets(f, t) for _, t in f.calls())] if inlined is None else [ck]
     chk.ob("T3.checksum-single-consumer", ck.key + tag, len(app) == 1, "checksum routine is called from %s" % [f.path for f in app])
     appenders = {f.path for f in app}
 
@@ -283,7 +316,7 @@ def role_rules(chk, F, A, tag):
             if core.strip_generics(f.path) == core.strip_generics(chain):
                 continue
             nsites += 1
-            ex = expr.Expr(F, f)
+            ex = expr.Expr(F, f, closure_env=True)
             frm = ex.of_operand(t["args"][4])
             to = ex.of_operand(t["args"][5])
             cid = ex.of_operand(t["args"][2])
@@ -379,6 +412,8 @@ def from_appender(F, f, ex, e, appenders, depth=0):
     root = strip_casts(e)
     if root[0] == "arg" and depth < 3:
         n = root[1]
+        if getattr(ex, "closure_env", False) and getattr(ex, "_parent", None) is not None:
+            f = ex._parent.f   # in a closure-transparent expression a parameter is the enclosing function's
         callers = [(c, b) for c, b, k in F.callers_of(f.path) if k == "call"]
         if not callers:
             return False
